@@ -61,6 +61,7 @@ type lockCfg struct {
 	NRelayers      int
 	NNodes         int
 	MempoolMax     int
+	RealTime       bool // see world.Config.RealTime
 	DiskDB         bool
 	Rotate         bool
 	StepOpts       func(*world.StepOpts)
@@ -182,7 +183,7 @@ func newLockHistSchnorr(c *vc.Ctx, cfg lockCfg, idx int, schnorrKey bool) (*lock
 	h := &lockHist{c: c, cfg: cfg, r: world.NewRand(c.Seed, "lockhist/"+cfg.Label, idx), unlocks: map[uint64]*unlockRec{}, claims: map[uint64]*claimRec{}, absentRun: map[int]int{}}
 	h.tokens = []common.Address{tokBTC, tokGOAT, tokX}
 	one := math.NewIntFromUint64(1e18)
-	w, err := world.New(world.Config{Seed: c.Seed, Label: fmt.Sprintf("%s-%d", cfg.Label, idx), Schnorr: schnorrKey, DiskDB: cfg.DiskDB, NVals: cfg.NVals, NNodes: cfg.NNodes, MempoolMax: cfg.MempoolMax, Powers: cfg.Powers, Cons: cfg.Cons, Relayer: cfg.Relayer, NRelayers: cfg.NRelayers,
+	w, err := world.New(world.Config{Seed: c.Seed, Label: fmt.Sprintf("%s-%d", cfg.Label, idx), Schnorr: schnorrKey, DiskDB: cfg.DiskDB, NVals: cfg.NVals, NNodes: cfg.NNodes, MempoolMax: cfg.MempoolMax, RealTime: cfg.RealTime, Powers: cfg.Powers, Cons: cfg.Cons, Relayer: cfg.Relayer, NRelayers: cfg.NRelayers,
 		Locking: func(g *lockingtypes.GenesisState) {
 			if cfg.MaxVals > 0 {
 				g.Params.MaxValidators = cfg.MaxVals
